@@ -56,6 +56,23 @@ impl DocCase {
     }
 }
 
+/// A document preceded by a "primer": a tiny document whose LAST computed position (end of its
+/// item name, on line 3) has the same byte offset as the FIRST position computed for the
+/// document (start of its package name, on line 1). Parsing the primer first on the same thread
+/// exposes position state that leaks from one parse into the next.
+pub fn gen_primed_doc(s: &mut Src, cfg: &GenCfg, lc: &LayoutCfg) -> Result<(String, DocCase), Fail> {
+    let m = gen::file(s, cfg);
+    let rendered = render::render(&m);
+    let mut gaps = gen::gaps(s, lc, rendered.toks.len());
+    let pad = s.range(11, 40);
+    gaps[0] = format!("/*{}*/", "-".repeat(pad));
+    gaps[1] = " ".to_owned();
+    let start = gaps[0].len() + 8; // "package" + one blank
+    let primer = format!("package a;\n\ninterface I{} {{}}", "x".repeat(start - 23));
+    let d = DocCase::build(m, rendered, &gaps)?;
+    Ok((primer, d))
+}
+
 pub fn gen_doc(s: &mut Src, cfg: &GenCfg, lc: &LayoutCfg) -> Result<DocCase, Fail> {
     let m = gen::file(s, cfg);
     DocCase::from_model(m, s, lc)
